@@ -4,7 +4,7 @@ import pk, src
 from common import jhash, first_diff
 from pkgrun import *
 
-PROF = profile(tokens=True, math_markup=True, bare_vals=True, p_math=0.12, p_rpr=0.8, p_style=0.5, p_link=0.12, p_textbox=0.06,
+PROF = profile(p_strict=0.12, tokens=True, math_markup=True, bare_vals=True, p_math=0.12, p_rpr=0.8, p_style=0.5, p_link=0.12, p_textbox=0.06,
                p_table=0.15, p_text=0.55, run_items=(0, 3), inlines=(1, 5))
 RULE = ('packages from the "formatting" profile: every recognised run property with every on/off spelling (and unrecognised ones), heading '
         'and non-heading styles, token text followed by markup characters (& < >), hyperlinks whose runs differ in formatting, text boxes '
